@@ -1,6 +1,7 @@
 import HidVerif.Proofs.Terminal
 import HidVerif.Proofs.Tables
 import HidVerif.Proofs.SourceLaws
+import HidVerif.Proofs.CoreMain
 /-!
 # C03 — halt is defeat: a compiled program never halts
 
@@ -45,5 +46,29 @@ that never halts; reporting `halted` exhibits `Halts init` -/
 theorem vm_verdict_sound {p : Prog} {B : Nat} (hp : Placed p B) (fuel : Nat) (s₀ : St) :
     Sound (sphinx p) (fun s => s.pc == tntPc B) s₀
       ((sphinx p).run (fun s => s.pc == tntPc B) (fun _ => #[]) fuel s₀) := vm_sound hp fuel s₀
+
+/-! ## The sequential integer core never halts (proved for the model that the `core`
+correspondence suite identifies with the compiler's output) -/
+
+/-- **C03 on the core**: every terminating core program, in every configuration whose stack holds
+the frame peak, never reaches the halted state on its committed timeline. -/
+theorem core_never_halts (cf : Core.Config) (body : Core.S) (hw : 2 ≤ cf.w)
+    (hB : Core.funcLen cf.checked body + stdlibLength < 256 ^ cf.w)
+    (hSE : 5 * cf.w + cf.stackWords * cf.w + cf.w < 256 ^ cf.w)
+    (hwf : Core.wfS [] body = true)
+    (fuel : Nat) (env' : Core.Env) (tr : List Ev) (res : Core.Res)
+    (hex : Core.exec (256 ^ cf.w) (8 * cf.w) fuel (fun _ => 0) body = some (env', tr, res))
+    (hck : res = .div0 → cf.checked = true)
+    (hroom : Core.pkS cf.w cf.w body ≤ (cf.stackWords + 1) * cf.w) :
+    C03_statement (Core.coreProg cf body) (Core.coreInit cf body) :=
+  (Core.core_correct cf body hw hB hSE hwf fuel env' tr res hex hck hroom).choose_spec.2
+
+/-- … and neither does a checked build whose stack is too small: it ends in `stack_overflow` -/
+theorem core_overflow_never_halts (cf : Core.Config) (body : Core.S) (hw : 2 ≤ cf.w) (hck : cf.checked = true)
+    (hB : Core.funcLen cf.checked body + stdlibLength < 256 ^ cf.w)
+    (hSE : 5 * cf.w + cf.stackWords * cf.w + cf.w < 256 ^ cf.w)
+    (hsmall : (cf.stackWords + 1) * cf.w < Core.pkS cf.w cf.w body) (hpkM : Core.pkS cf.w cf.w body < 256 ^ cf.w) :
+    C03_statement (Core.coreProg cf body) (Core.coreInit cf body) :=
+  (Core.core_overflow cf body hw hck hB hSE hsmall hpkM).choose_spec.2
 
 end HidVerif.Props.C03
